@@ -5,7 +5,7 @@ R3 files are opened for append, never truncated   R4 pruning happens before the 
 """
 from rulekit import Facts, where
 from rulekit.sym import PathEval, show
-from rulekit.query import guards_of, ordering_of, ORD_RANK
+from rulekit.query import peel_bool, guards_of, ordering_of, ORD_RANK
 
 R = "tracing_appender::rolling::"
 KIND = {0: "Minutely", 1: "Hourly", 2: "Daily", 3: "Never"}
@@ -458,8 +458,9 @@ def r4(ck, F):
             undated = 0
             for p in PathEval(fc[0]).run():
                 if p.end == "return" and show(p.ret).startswith("Option::Some"):
-                    dated = any(("parse(" in show(c[0])) and ((show(c[0]).startswith("is_err(") and c[1] == 0) or (show(c[0]).startswith("is_ok(") and c[1] != 0)
-                                                             or (show(c[0]).startswith("discr(") and c[1] == 0)) for c in p.conds)
+                    # (the test may be written through Option combinators: `opt.map(|d| parse(d).is_ok()).unwrap_or(false)`)
+                    pc = [(show(peel_bool(F, c[0])), c[1]) for c in p.conds]
+                    dated = any(("parse(" in t) and ((t.startswith("is_err(") and v == 0) or (t.startswith("is_ok(") and v != 0) or (t.startswith("discr(") and v == 0)) for t, v in pc)
                     if not dated:
                         undated += 1
             if undated:
